@@ -309,14 +309,26 @@ func extractHashProbe(pk *packages.Package, fd *ast.FuncDecl) (hashProbe, string
 				})
 			}
 		case *ast.ForStmt:
-			// compare loop: body contains `if t[i] != s[i] { goto/return 0 }`
+			// compare loop: body contains `if t[i] != s[i] { goto NEXT / return 0 }`: a mismatch must never fall
+			// through to the `return i` that follows the loop
 			ast.Inspect(s.Body, func(m ast.Node) bool {
 				if ifs, ok := m.(*ast.IfStmt); ok {
 					if be, ok := ifs.Cond.(*ast.BinaryExpr); ok && be.Op == token.NEQ {
 						_, l := be.X.(*ast.IndexExpr)
 						_, r := be.Y.(*ast.IndexExpr)
-						if l && r {
-							compareLoops++
+						if l && r && len(ifs.Body.List) == 1 {
+							switch st := ifs.Body.List[0].(type) {
+							case *ast.BranchStmt:
+								if st.Tok == token.GOTO {
+									compareLoops++
+								}
+							case *ast.ReturnStmt:
+								if len(st.Results) == 1 {
+									if v := pk.TypesInfo.Types[st.Results[0]].Value; v != nil && constant.Sign(constant.ToInt(v)) == 0 {
+										compareLoops++
+									}
+								}
+							}
 						}
 					}
 				}
@@ -331,7 +343,7 @@ func extractHashProbe(pk *packages.Package, fd *ast.FuncDecl) (hashProbe, string
 	case probes != 2 || !shiftSeen:
 		return p, fmt.Sprintf("expected two probes of _Hash_table (h&mask and (h>>K)&mask), found %d", probes)
 	case compareLoops != 2:
-		return p, fmt.Sprintf("expected a byte-compare loop after each probe, found %d", compareLoops)
+		return p, fmt.Sprintf("expected after each probe a byte-compare loop whose mismatch branch leaves the probe (goto NEXT / return 0); found %d such loops: a mismatching argument could be reported as a member", compareLoops)
 	}
 	return p, ""
 }
@@ -553,6 +565,38 @@ func escQuoteFunc(r *core.Run, rel, fname string) int {
 		return true
 	})
 	_ = walkIf
+	// counters computed with bytes.Count(b, []byte{q}) / bytes.Count(b, []byte("q"))
+	ast.Inspect(fd.Body, func(n ast.Node) bool {
+		as, ok := n.(*ast.AssignStmt)
+		if !ok || len(as.Lhs) != 1 || len(as.Rhs) != 1 {
+			return true
+		}
+		ce, ok := as.Rhs[0].(*ast.CallExpr)
+		if !ok || len(ce.Args) != 2 {
+			return true
+		}
+		if se, ok := ce.Fun.(*ast.SelectorExpr); !ok || se.Sel.Name != "Count" {
+			return true
+		}
+		l, err := evalExpr(pk, ce.Args[1])
+		if err != nil {
+			return true
+		}
+		q := int64(-1)
+		if sv, ok := l.Str(); ok && len(sv) == 1 {
+			q = int64(sv[0])
+		} else if len(l.Elems) == 1 {
+			q, _ = l.Elems[0].Int()
+		}
+		if id, ok := as.Lhs[0].(*ast.Ident); ok && q >= 0 {
+			if obj := pk.TypesInfo.Defs[id]; obj != nil {
+				counterOf[obj] = q
+			} else if obj := pk.TypesInfo.Uses[id]; obj != nil {
+				counterOf[obj] = q
+			}
+		}
+		return true
+	})
 	sites := 0
 	// branches: blocks that contain `n += cnt*K`, `quote = q`, `escapedQuote = G`
 	ast.Inspect(fd.Body, func(n ast.Node) bool {
